@@ -225,6 +225,44 @@ fn one_seq<const N: usize>(cx: &mut Ctx, seq: &[usize], nk: usize) {
             ps.extend(plain[cut..].iter());
             ps
         }));
+        // Extend<&T> with a zero-sized T: any number of items is at most one element
+        {
+            #[derive(Clone, Copy, PartialEq, Eq, Debug)]
+            struct Unit;
+            let n_items = seq.len() - cut;
+            let units = vec![Unit; n_items];
+            let mut zs = Set::<Unit, N>::new();
+            let pre = catch_unwind(AssertUnwindSafe(|| {
+                if cut > 0 {
+                    zs.insert(Unit);
+                }
+                zs
+            }));
+            if let Ok(mut zs) = pre {
+                let before = zs.len();
+                let rz = catch_unwind(AssertUnwindSafe(|| {
+                    zs.extend(units.iter());
+                    zs
+                }));
+                let want = usize::from(before > 0 || n_items > 0);
+                match rz {
+                    Ok(zs) => cx.check(PM | C03, want <= N && zs.len() == want && zs.iter().count() == want, || {
+                        format!("Extend<&T> with a zero-sized T: {n_items} items into a set of {before} gave len {} (capacity {N}), expected {want}", zs.len())
+                    }),
+                    Err(_) => cx.check(PM | C03, want > N, || format!("Extend<&T> with a zero-sized T: panicked although {want} element fits capacity {N}")),
+                };
+            }
+            let mut zo = Set::<(), N>::new();
+            let ro = catch_unwind(AssertUnwindSafe(|| {
+                zo.extend(std::iter::repeat(()).take(n_items));
+                zo.len()
+            }));
+            let want = usize::from(n_items > 0);
+            match ro {
+                Ok(l) => cx.check(PM | C03, want <= N && l == want, || format!("Extend<T> with T = (): {n_items} items gave len {l}, expected {want}")),
+                Err(_) => cx.check(PM | C03, want > N, || "Extend<T> with T = (): panicked although the element fits".to_string()),
+            };
+        }
         match r {
             Err(_) => {
                 cx.check(PM | C03, f.overflow_at.is_some(), || "Extend<&T>: panicked although the items fit".to_string());
